@@ -16,7 +16,7 @@
 
   `chk` is the regenerated behaviour probe `Mhd.Gen.Pool.sizeWrapByCompare`: how the code tests for
   "size too close to SIZE_MAX" — `true`: `asize < size`; `false`: `(0 == asize) && (0 != size)`,
-  which in the red-zone build lets the sizes `SIZE_MAX-14 … SIZE_MAX` through (finding F34).
+  which in the red-zone build lets the sizes `SIZE_MAX-14 … SIZE_MAX` through.
 -/
 import Mhd.Model.Pool
 
